@@ -991,6 +991,10 @@ func (ev *Evaluator) evalCall(x *ast.CallExpr, env *Env) Value {
 			return ev.unk(x, "builtin "+id.Name)
 		}
 	}
+	// pure functions of package strings on determined arguments (version strings are normalised before a lookup)
+	if v, ok := ev.evalStringsCall(x, env); ok {
+		return v
+	}
 	// call of a function or method declared in the analysed package
 	if fd, recvExpr := ev.calleeDecl(x); fd != nil {
 		bind := map[string]Value{}
@@ -1769,4 +1773,70 @@ func (ev *Evaluator) assign(l ast.Expr, v Value, env *Env, define bool) ctl {
 		return ev.abort(l, "store through pointer")
 	}
 	return ev.abort(l, "assignment target outside subset")
+}
+
+// evalStringsCall: strings.F(args…) for the side-effect-free functions below, when every argument is a determined
+// string (or integer). The functions are evaluated by the standard library itself: they are total and depend on their
+// arguments only.
+func (ev *Evaluator) evalStringsCall(x *ast.CallExpr, env *Env) (Value, bool) {
+	sel, ok := x.Fun.(*ast.SelectorExpr)
+	if !ok {
+		return nil, false
+	}
+	fn, ok := ev.Info.Uses[sel.Sel].(*types.Func)
+	if !ok || fn.Pkg() == nil || fn.Pkg().Path() != "strings" || fn.Type().(*types.Signature).Recv() != nil {
+		return nil, false
+	}
+	var ss []string
+	for _, a := range x.Args {
+		v, isStr := ev.Eval(a, env).(Str)
+		if !isStr {
+			return nil, false
+		}
+		ss = append(ss, v.V)
+	}
+	b := func(v bool) (Value, bool) { return Bool{v}, true }
+	st := func(v string) (Value, bool) { return Str{v}, true }
+	switch fn.Name() {
+	case "TrimSpace":
+		if len(ss) == 1 {
+			return st(strings.TrimSpace(ss[0]))
+		}
+	case "ToLower":
+		if len(ss) == 1 {
+			return st(strings.ToLower(ss[0]))
+		}
+	case "ToUpper":
+		if len(ss) == 1 {
+			return st(strings.ToUpper(ss[0]))
+		}
+	}
+	if len(ss) != 2 {
+		return nil, false
+	}
+	switch fn.Name() {
+	case "TrimLeft":
+		return st(strings.TrimLeft(ss[0], ss[1]))
+	case "TrimRight":
+		return st(strings.TrimRight(ss[0], ss[1]))
+	case "Trim":
+		return st(strings.Trim(ss[0], ss[1]))
+	case "TrimPrefix":
+		return st(strings.TrimPrefix(ss[0], ss[1]))
+	case "TrimSuffix":
+		return st(strings.TrimSuffix(ss[0], ss[1]))
+	case "HasPrefix":
+		return b(strings.HasPrefix(ss[0], ss[1]))
+	case "HasSuffix":
+		return b(strings.HasSuffix(ss[0], ss[1]))
+	case "EqualFold":
+		return b(strings.EqualFold(ss[0], ss[1]))
+	case "Contains":
+		return b(strings.Contains(ss[0], ss[1]))
+	case "Index":
+		return Int{int64(strings.Index(ss[0], ss[1]))}, true
+	case "Compare":
+		return Int{int64(strings.Compare(ss[0], ss[1]))}, true
+	}
+	return nil, false
 }
